@@ -65,6 +65,16 @@ Theorem C11_params_core : forall e v fl cs, client_run_gen e v fl = Complete cs 
 Proof. exact params_agree. Qed.
 Print Assumptions C11_params_core.
 
+(* TLS <= 1.2 session resumption (outside Negotiate.v's run12): a client that completes the abbreviated handshake reports
+   the version, suite, ALPN protocol of the resumed ServerHello (no protocol if it carries none - never the cached
+   session's), no curve, and resumed = true: the server's values *)
+Theorem C11_params_resumed12 : forall e v se vers h h_ems ok cs, client_resume12 e v se vers h h_ems ok = Complete cs ->
+  let ss := server_state_resumed12 vers h in
+  cs_vers cs = ss_vers ss /\ cs_suite cs = ss_suite ss /\ cs_group cs = ss_group ss /\
+  cs_alpn cs = ss_alpn ss /\ cs_psk cs = ss_resumed ss.
+Proof. exact resume12_agree. Qed.
+Print Assumptions C11_params_resumed12.
+
 (* Server name, full statement: the client reports the SNI actually on the wire (which is what the server reports),
    empty if none - for every hostnameInSNI function, Config.ServerName and extension list with at most one SNI extension
    (two server_name extensions on the wire are refused by any server). Proved for the repaired code ... *)
@@ -111,6 +121,15 @@ Example C11_ex_second_share :
   /\ Complete.client_run10 false env_fixed ex_view2 (KeyShare.mkShape 29 [] false 0) ex_flight2 = Abort a_illegal_parameter
   /\ server_state ex_flight2 = mkSrv 772 4865 23 [104; 50] false.
 Proof. vm_compute. repeat split. Qed.
+
+(* a TLS 1.2 resumption whose ServerHello carries no ALPN although the session was negotiated with h2: no protocol reported *)
+Example C11_ex_resume12 :
+  client_resume12 env_fixed ex_view (mkSess12 771 49195 true) 771 (mkHello 771 0 0 [9] 49195 0 0 0 false None []) true true
+    = Abort a_handshake_failure  (* ex_view does not offer 49195 *)
+  /\ client_resume12 env_fixed (mkView [49195] [29] [] [[104; 50]] [9] 0 [] false 769 771 false 0 false [] 0)
+        (mkSess12 771 49195 true) 771 (mkHello 771 0 0 [9] 49195 0 0 0 false None []) true true
+      = Complete (mkState 771 49195 0 [] false true).
+Proof. vm_compute. split; reflexivity. Qed.
 
 (* F-11 witness evaluated: identity hostnameInSNI, one non-SNI extension *)
 Example C11_ex_f11 :
